@@ -111,6 +111,9 @@ def ofFfftOp : FfftOp → Json
 def ffft (j : Json) : Except String Json := do
   .ok (J.ofList ofFfftOp (ffftOps (← J.nat (← J.field j "n"))))
 
+def ffftExp (j : Json) : Except String Json := do
+  .ok (J.ofList J.ofNatList (ffftExpTable (← J.nat (← J.field j "n"))))
+
 def handle (op : String) (j : Json) : Option (Except String Json) :=
   match op with
   | "c14.swap" => some (swap j)
@@ -123,6 +126,7 @@ def handle (op : String) (j : Json) : Option (Except String Json) :=
   | "c14.spinblock" => some (spinBlock j)
   | "c14.givens" => some (givens j)
   | "c14.ffft" => some (ffft j)
+  | "c14.ffftexp" => some (ffftExp j)
   | _ => none
 
 end C14
